@@ -5,13 +5,17 @@
    the automaton is dead, retract one character, evaluate the state reached, skip WS/EOL/COMMENT, discard
    whitespace no token matches, evaluate the pending lexeme at the end of input — computes exactly the
    maximal-munch token stream ([emitted_stream]), which is unique; and the emitted two-half reader returns
-   exactly the file for every half size and length ([emitted_reader_exact]; single-byte characters).
+   exactly the file for every half size and length ([emitted_reader_exact]; single-byte characters), and the
+   REPAIRED reader (scanned / loaded bookkeeping, sentinel, Retract clearing the end of input) refines a cursor into the
+   file for every half size >= 4, every NUL-free file and every disciplined sequence of next() / Retract(k <= 4) calls
+   ([emitted_reader_with_retract_exact]): boundaries may be crossed backwards and forwards any number of times.
    The emitted automaton IS the specification's automaton by C08.
    PER EMITTED PACKAGE: the package is compiled with a driver and run on generated inputs and on paddings
    that move tokens across both buffer boundaries; its output is compared with the Coq model of the loop
    evaluated on the same automaton and text. *)
 From Coq Require Import String List Bool Arith NArith.
 From Verif Require Import Reg.Dfa Reg.MaxMunch Reg.TwoBuf.
+From Verif Require Reg.Reader2.
 Import ListNotations.
 Local Open Scope N_scope.
 
@@ -60,3 +64,11 @@ Theorem emitted_reader_exact :
   forall n : nat, (1 <= n)%nat -> forall file, nul_free file -> read_all n (S (length file)) (new n file) = file.
 Proof. intros n Hn file Hf. apply read_all_correct; assumption. Qed.
 Print Assumptions emitted_reader_exact.
+
+(* the repaired emitted reader, with Retract: every next() returns the byte at the abstract cursor, the end of input
+   exactly at the end of the file; a Retract gives back at most the 4 bytes of one character read since the last Retract *)
+Theorem emitted_reader_with_retract_exact (n : nat) (file : list N) (ops : list Reader2.op) :
+  (4 <= n)%nat -> Forall (fun b => b <> 0%N) file -> Reader2.disciplined file ops 0 0 ->
+  Reader2.run n file ops (Reader2.init n file) = Reader2.spec file ops 0.
+Proof. intros Hn Hf. exact (Reader2.emitted_reader_with_retract n Hn file Hf ops). Qed.
+Print Assumptions emitted_reader_with_retract_exact.
